@@ -18,3 +18,7 @@ package common
 //@   property C08
 //@   ensures unreserved_spelling_is_kept: !isReservedName[name] ==> result == name
 //@   ensures reserved_spelling_is_escaped: isReservedName[name] ==> result == name + "_"
+
+// Type syntax is a function of the type and the namespace (the model is not modified).
+//@ func TypeSyntax
+//@   pure
